@@ -37,37 +37,50 @@ InSlice(rec, tab, p) ==
   /\ p.c \in DOMAIN tab
   /\ DocSuppresses(rec.cmt, tab[p.c])
 
+\* the run the new comment is compared with: the scenario's base run, or - when an expired snooze is already in
+\* the file - the run of the file with just that snooze
+RefReports(rec) == IF rec.prior = "none" THEN Range(BaseOf(rec).reports) ELSE Range(rec.basereports)
+
 Expected(rec) ==
   LET tab == InstanceTable(BaseOf(rec).cfg) IN
-  {ShiftRep(p, rec.place) : p \in {q \in Range(BaseOf(rec).reports) : ~InSlice(rec, tab, q)}}
+  {ShiftRep(p, rec.eplace) : p \in {q \in RefReports(rec) : ~InSlice(rec, tab, q)}}
+\* "An expired snooze changes nothing": the file with just the expired snooze reports what the plain file reports
+ExpectedPrior(rec) == {ShiftRep(p, rec.pplace) : p \in Range(BaseOf(rec).reports)}
 
 Brief(S) == {<<p.e, p.c>> : p \in S}
 
 \* binding: the real parser sees the rules where the spec says they are, and pint dispatched what the spec dispatches
-ExpectedRules(pl) == [r \in DOMAIN FileRules |-> <<ShiftLine(FileRules[r].first, pl), ShiftLine(FileRules[r].last, pl)>>]
+ExpectedRules(pp, pl) ==
+  [r \in DOMAIN FileRules |-> <<ShiftLine(ShiftLine(FileRules[r].first, pp), pl), ShiftLine(ShiftLine(FileRules[r].last, pp), pl)>>]
 BindRun(rec) ==
   LET c == BaseOf(rec).cfg IN
-  /\ rec.rules = ExpectedRules(rec.place)
+  /\ rec.rules = ExpectedRules(rec.pplace, rec.eplace)
   /\ \A r \in DOMAIN rec.checks :
-       rec.checks[r] = Strs(GetChecksForEntry(Load(c), EntryWith(rec.cmt, r = rec.rule), "lint"))
+       rec.checks[r] = Strs(GetChecksForEntry(Load(c), EntryWith(rec.cmt, rec.prior, r = rec.rule), "lint"))
 
 TBase ==
   /\ ~judged /\ Rec.ev = "Base"
-  /\ IF Rec.rules = ExpectedRules(NoPlace)
+  /\ IF Rec.rules = ExpectedRules(NoPlace, NoPlace)
         /\ \A r \in DOMAIN Rec.checks : Rec.checks[r] = Strs(GetChecksForEntry(Load(Rec.cfg), PlainEntry("rule", "noop"), "lint"))
      THEN TRUE
      ELSE PrintT(<<"DRIFT", 0, ToJson([scen |-> Rec.scen, what |-> "base: rule lines or dispatched checks differ from the spec",
                                         rules |-> Rec.rules, checks |-> Rec.checks[1]])>>)
   /\ judged' = TRUE /\ UNCHANGED <<vars, l>>
 
+Describe(rec, exp, got, what) ==
+  LET cfgb == BaseOf(rec).cfg IN
+  [what |-> what, cmt |-> rec.cmt, text |-> rec.text, place |-> rec.place, rule |-> rec.rule, prior |-> rec.prior, eol |-> rec.eol,
+   nproms |-> Len(cfgb.proms), locked |-> [b \in DOMAIN cfgb.blocks |-> cfgb.blocks[b].locked],
+   enable |-> \E b \in DOMAIN cfgb.blocks : Len(cfgb.blocks[b].enable) > 0,
+   missing |-> Brief(exp \ got), unexpected |-> Brief(got \ exp)]
+
 TRun ==
   /\ ~judged /\ Rec.ev = "Run"
-  /\ LET cfgb == BaseOf(Rec).cfg IN
-     LET exp == Expected(Rec)  got == Range(Rec.reports) IN
-     IF got = exp THEN TRUE
-     ELSE PrintT(<<"VIOL", Rec.id, ToJson([cmt |-> Rec.cmt, text |-> Rec.text, place |-> Rec.place, rule |-> Rec.rule,
-                      nproms |-> Len(cfgb.proms), locked |-> [b \in DOMAIN cfgb.blocks |-> cfgb.blocks[b].locked],
-                      missing |-> Brief(exp \ got), unexpected |-> Brief(got \ exp)])>>)
+  /\ LET exp == Expected(Rec)  got == Range(Rec.reports) IN
+     IF got = exp THEN TRUE ELSE PrintT(<<"VIOL", Rec.id, ToJson(Describe(Rec, exp, got, "comment"))>>)
+  /\ IF Rec.prior = "none" THEN TRUE
+     ELSE LET exp == ExpectedPrior(Rec)  got == Range(Rec.basereports) IN
+          IF got = exp THEN TRUE ELSE PrintT(<<"VIOL", Rec.id, ToJson(Describe(Rec, exp, got, "expired snooze alone"))>>)
   /\ IF BindRun(Rec) THEN TRUE
      ELSE PrintT(<<"DRIFT", Rec.id, ToJson([text |-> Rec.text, place |-> Rec.place, rule |-> Rec.rule, rules |-> Rec.rules,
                       checks |-> IF Rec.rule > 0 /\ Rec.rule <= Len(Rec.checks) THEN Rec.checks[Rec.rule] ELSE <<>>])>>)
